@@ -60,7 +60,7 @@ static void model_pass(chist *h, ctrans *t, int annotate)
     const vh_cipher *c = h->c;
     mstate m; int i;
     m_reset(&m);
-    if (t) { t->out_n = 0; t->backend = -1; t->canary_damage = 0; }
+    if (t) { t->out_n = 0; t->backend = -1; t->canary_damage = 0; t->rejected_wrote = 0; }
     if (annotate) { h->n_segments = h->n_judged_bytes = h->n_carry_bytes_max = h->n_wraps = h->n_zero_calls = h->n_midrekey = h->n_invalid = 0; }
     for (i = 0; i < h->n; ++i) {
         cop *o = &h->ops[i];
@@ -186,7 +186,8 @@ static void gen_key(chist *h, vh_rng *r, unsigned g, int tweaked)
     if (!vh_below(r, 5)) {      /* a key this object has had before, through either key function: "already loaded" shortcuts must notice what happened in between */
         int k, cand[16], nc = 0; unsigned maxk = tweaked ? c->tkey_max : c->key_max;
         for (k = 0; k < h->n - 1 && nc < 16; ++k) if ((h->ops[k].kind == C_SET_KEY || h->ops[k].kind == C_SET_TKEY) && !(h->ops[k].flags & F_NULL_PTR) && h->ops[k].dlen >= c->bb && h->ops[k].expect != 0) cand[nc++] = k;
-        if (nc) { const cop *q = &h->ops[cand[vh_below(r, (uint32_t)nc)]]; unsigned n; if (vh_below(r, 2) && q->len <= maxk && q->len >= c->bb) o->len = q->len; n = q->dlen < o->len ? q->dlen : o->len; memcpy(buf, h->pool + q->doff, n); o->cls = tweaked ? "set_tweaked_key(a key used before)" : "set_key(a key used before)"; }
+        if (nc) { const cop *q = &h->ops[cand[vh_below(r, (uint32_t)nc)]]; unsigned n; if (vh_below(r, 2) && q->len <= maxk && q->len >= c->bb) o->len = q->len; n = q->dlen < o->len ? q->dlen : o->len; memcpy(buf, h->pool + q->doff, n); o->cls = tweaked ? "set_tweaked_key(a key used before)" : "set_key(a key used before)";
+                  if (!vh_below(r, 3)) { vh_related(r, buf, h->pool + q->doff, n); o->cls = tweaked ? "set_tweaked_key(related to an earlier key)" : "set_key(related to an earlier key)"; } }
     }
     o->doff = pool_put(h, buf, o->len); o->dlen = o->len;
     placement(o, r, g);
@@ -204,6 +205,11 @@ static void gen_tweak(chist *h, vh_rng *r, unsigned g)
         int k;
         for (k = h->n - 2; k >= 0; --k) if (h->ops[k].kind == C_SET_TWEAK && !(h->ops[k].flags & F_NULL_PTR) && h->ops[k].dlen) {
             o->len = h->ops[k].len; memcpy(buf, h->pool + h->ops[k].doff, o->len); o->cls = "set_tweak(same value again)"; break;
+        }
+    } else if (!vh_below(r, 6)) {   /* a tweak related to the previous one: halves / words repeated or swapped, one bit apart */
+        int k;
+        for (k = h->n - 2; k >= 0; --k) if (h->ops[k].kind == C_SET_TWEAK && !(h->ops[k].flags & F_NULL_PTR) && h->ops[k].dlen) {
+            unsigned n = h->ops[k].len < o->len ? h->ops[k].len : o->len; vh_related(r, buf, h->pool + h->ops[k].doff, n); break;
         }
     }
     o->doff = pool_put(h, buf, o->len); o->dlen = o->len;
@@ -350,6 +356,7 @@ void chist_gen(chist *h, const vh_cipher *c, vh_rng *r, unsigned g)
     int target = 3 + (int)vh_below(r, (g & G_SMALL) ? 24 : 60);
     uint32_t budget = (g & G_SMALL) ? 700 : 6000;
     int live = 0, keyed = 0, tweaked = 0, started = 0, guard = 0;
+    uint8_t trk_ctr[16] = {0}; uint64_t trk_pos = 0;          /* counter and bytes consumed since the last counter set (approximate: ignores injected invalid calls) */
     h->c = c; h->n = 0; h->pool_n = 0;
     if ((g & G_LIFECYCLE) && !vh_below(r, 6)) {
         /* calls on a zeroed, never initialised handle */
@@ -365,7 +372,7 @@ void chist_gen(chist *h, const vh_cipher *c, vh_rng *r, unsigned g)
     while (h->n < target && h->n < H_MAXOPS - 8 && ++guard < 1000) {
         uint32_t x;
         if (!live) {
-            add_op(h, C_INIT, "init"); live = 1; keyed = 0; tweaked = 0; started = 0;
+            add_op(h, C_INIT, "init"); live = 1; keyed = 0; tweaked = 0; started = 0; memset(trk_ctr, 0, 16); trk_pos = 0;
             continue;
         }
         if (!keyed && !((g & G_UNKEYED) && !vh_below(r, 4))) {
@@ -374,8 +381,21 @@ void chist_gen(chist *h, const vh_cipher *c, vh_rng *r, unsigned g)
             continue;
         }
         x = vh_below(r, 100);
-        if (x < 50) { gen_encrypt(h, r, g, &budget); if (h->ops[h->n - 1].len) started = 1; }
-        else if (x < 65) { gen_counter(h, r, g); started = 0; }
+        if (x < 50) { gen_encrypt(h, r, g, &budget); if (h->ops[h->n - 1].len) started = 1; trk_pos += h->ops[h->n - 1].len; }
+        else if (x < 65) {
+            gen_counter(h, r, g);
+            if (started && !vh_below(r, 5)) {
+                /* a counter equal to where the stream already is: the next block, or the start of the next 4- or 8-block batch.
+                   It is still a counter set: buffered keystream must be dropped like for any other value */
+                static const unsigned rnd[3] = {1, 4, 8};
+                cop *o = &h->ops[h->n - 1]; uint8_t v[16]; unsigned q = rnd[vh_below(r, 3)]; uint64_t blocks = (trk_pos + c->bb - 1) / c->bb;
+                blocks = (blocks + q - 1) / q * q;
+                memcpy(v, trk_ctr, 16); ref_ctr_add(v, c->bb, blocks);
+                o->flags &= (uint8_t)~F_NULL_PTR; o->len = c->bb; o->dlen = c->bb; o->doff = pool_put(h, v, c->bb); o->cls = "set_counter(equal to the current stream position)";
+            }
+            { const cop *o = &h->ops[h->n - 1]; memset(trk_ctr, 0, 16); if (!(o->flags & F_NULL_PTR) && o->len <= c->bb) memcpy(trk_ctr + c->bb - o->len, h->pool + o->doff, o->len); trk_pos = 0; }
+            started = 0;
+        }
         else if (x < 75) {
             if (c->id == CIPH_MANTIS || tweaked || (g & G_PLAIN_TWEAK)) {
                 gen_tweak(h, r, g);
@@ -486,6 +506,11 @@ void chist_exec(const chist *h, int i, vh_obj *ob, ctrans *t, const char *prefix
             else { b = place(2, o, 1, o->len); used_b = 1; memset(b, 0xEE, o->len); vh_make_undef(b, o->len); out = b; if (used_a == 2) vh_gprotect(1, 1); }
         }
         vh_call_begin("ctr_encrypt"); ret = c->ctr_encrypt(out, in, o->len, obj); vh_call_end();
+        if (!ret && out && !t->rejected_wrote) {      /* a refused call leaves the caller's output buffer as it was */
+            uint32_t k; const uint8_t *orig = h->pool + o->doff;
+            if (!(o->flags & F_INPLACE)) vh_make_def(out, o->len);
+            for (k = 0; k < o->len; ++k) if (out[k] != ((o->flags & F_INPLACE) ? orig[k] : 0xEE)) { t->rejected_wrote = i + 1; break; }
+        }
         if (ret && out && t->out_n + o->len <= H_OUT) {
             memcpy(t->out + t->out_n, out, o->len);
             t->r[i].olen = o->len; t->out_n += o->len;
@@ -503,7 +528,7 @@ void chist_exec(const chist *h, int i, vh_obj *ob, ctrans *t, const char *prefix
     if (used_b && vh_gcheck(2, &where) && !t->canary_damage) { t->canary_damage = i + 1; t->canary_where = where; }
 }
 
-void ctrans_reset(ctrans *t) { t->out_n = 0; t->backend = -1; t->canary_damage = 0; t->canary_where = 0; }
+void ctrans_reset(ctrans *t) { t->out_n = 0; t->backend = -1; t->canary_damage = 0; t->canary_where = 0; t->rejected_wrote = 0; }
 
 void chist_run(const chist *h, ctrans *t, const char *prefix)
 {
